@@ -14,9 +14,14 @@
 (*   WaitBeforePrint   wg.Wait() before printing                           *)
 (*   ReleaseAfterCheck the token is released after the check               *)
 (*   PrivateSlots      warnings[i] is private to goroutine i               *)
+(*   TokenReturned     the deferred receive from the semaphore             *)
+(* Liveness (LiveSpec: weak fairness of the main goroutine and of every    *)
+(* spawned goroutine): the run terminates and every file is printed.       *)
 (***************************************************************************)
 EXTENDS Naturals, Sequences, FiniteSets, TLC
-CONSTANTS N, K, NFiles, WaitBeforePrint, ReleaseAfterCheck, PrivateSlots
+CONSTANTS N, K, NFiles, WaitBeforePrint, ReleaseAfterCheck, PrivateSlots,
+          TokenReturned,   \* the deferred `<-sema` (what-if FALSE: a goroutine keeps its token)
+          RecordSched      \* keep the schedule as a history variable (off for liveness checking: no VIEW there)
 Idx == 1..N
 G == (1..NFiles) \X Idx                     \* goroutine instances: (file, checker index)
 VARIABLES mainPc, nextI, file, tokens, wg, gpc, slot, out, ctxFile, sched
@@ -25,7 +30,7 @@ Diag(i, f) == << <<f, i>> >>                 \* checker i reports one warning on
 
 Init == /\ mainPc = "idle" /\ nextI = 1 /\ file = 0 /\ tokens = 0 /\ wg = 0
         /\ gpc = [g \in G |-> "none"] /\ slot = [i \in Idx |-> <<>>] /\ out = <<>> /\ ctxFile = 0 /\ sched = <<>>
-Ev(e) == sched' = Append(sched, e)
+Ev(e) == sched' = IF RecordSched THEN Append(sched, e) ELSE sched
 
 \* one action per instrumented point of the code (so that recorded events map 1:1 onto actions)
 SetFile == /\ mainPc = "idle" /\ file < NFiles
@@ -51,7 +56,7 @@ GEnd(g) == /\ gpc[g] = "checking" /\ gpc' = [gpc EXCEPT ![g] = "checked"]
 GDone(g) == /\ gpc[g] = "checked" /\ wg' = wg - 1 /\ gpc' = [gpc EXCEPT ![g] = "wgdone"] /\ Ev(<<"done", g[1], g[2]>>)
             /\ UNCHANGED <<mainPc, nextI, file, tokens, slot, out, ctxFile>>
 GRelease(g) == /\ ReleaseAfterCheck /\ gpc[g] = "wgdone"
-               /\ tokens' = IF g[1] = file THEN tokens - 1 ELSE tokens     \* an older file's semaphore is not this one
+               /\ tokens' = IF TokenReturned /\ g[1] = file THEN tokens - 1 ELSE tokens     \* an older file's semaphore is not this one
                /\ gpc' = [gpc EXCEPT ![g] = "gone"] /\ Ev(<<"rel", g[1], g[2]>>)
                /\ UNCHANGED <<mainPc, nextI, file, wg, slot, out, ctxFile>>
 \* what-if: token released as soon as the goroutine starts
@@ -64,6 +69,11 @@ GExit(g) == /\ ~ReleaseAfterCheck /\ gpc[g] = "wgdone" /\ gpc' = [gpc EXCEPT ![g
 Next == SetFile \/ Acquire \/ Barrier \/ PrintSlot \/ Finish
         \/ \E g \in G : (ReleaseAfterCheck /\ GBegin(g)) \/ GEnd(g) \/ GDone(g) \/ GRelease(g) \/ GEarlyRelease(g) \/ GExit(g)
 Spec == Init /\ [][Next]_vars
+MainStep == SetFile \/ Acquire \/ Barrier \/ PrintSlot \/ Finish
+GStep(g) == (ReleaseAfterCheck /\ GBegin(g)) \/ GEnd(g) \/ GDone(g) \/ GRelease(g) \/ GEarlyRelease(g) \/ GExit(g)
+LiveSpec == Spec /\ WF_vars(MainStep) /\ \A g \in G : WF_vars(GStep(g))
+Terminates == <>(mainPc = "done")
+EveryFilePrinted == \A f \in 1..NFiles : <>(file = f /\ mainPc = "print")
 
 Running == { g \in G : gpc[g] = "checking" }
 AtMostK == Cardinality(Running) <= K
